@@ -34,9 +34,11 @@ CONSTANTS
   GuardRangeSafe = %(range)s
   GuardCombineCap = %(combine)s
   GuardBraceComma = %(comma)s
+  GuardLazyRep = %(lazyrep)s
+  GuardRangeBeforeDash = %(rangedash)s
 INVARIANTS %(inv)s
 """
-SOUND = dict(alt="TRUE", brace="TRUE", zero="TRUE", empty="TRUE", prefix="TRUE", octal="TRUE", flag="TRUE", range="TRUE", combine="TRUE", comma="TRUE")
+SOUND = dict(alt="TRUE", brace="TRUE", zero="TRUE", empty="TRUE", prefix="TRUE", octal="TRUE", flag="TRUE", range="TRUE", combine="TRUE", comma="TRUE", lazyrep="TRUE", rangedash="TRUE")
 # the repaired tree: all context guards, but prefix factoring as the repository's own tests assert it
 CODE = dict(SOUND, prefix="FALSE", comma="FALSE")
 SUBJ = {"SOH": "\x01"}
@@ -75,7 +77,7 @@ def run(ctx):
         counts = list(pool.map(one, insts))
     design["terms"] = sum(counts)
     design["instances"] = ["level %d %s %d: %d terms" % (l, "seeds from" if l == 3 else "slice", k, c) for (l, k), c in zip(insts, counts)]
-    for g in ("alt", "brace", "zero", "empty", "prefix", "octal", "flag", "range", "combine", "comma"):
+    for g in ("alt", "brace", "zero", "empty", "prefix", "octal", "flag", "range", "combine", "comma", "lazyrep", "rangedash"):
         w = dict(SOUND)
         w[g] = "FALSE"
         r2 = ctx.tlc("Regex", cfg_text=cfg(0, w), workers=8, timeout=900, expect="violation")
@@ -93,6 +95,13 @@ def run(ctx):
         if pairs(s["finds"]):
             c["subjects"] = [join(SUBJ.get(a, a) for a in k) for k, _ in pairs(s["finds"])]
         cases.append(c)
+    # the same patterns at call sites of the POSIX constructors (every 7th): a suggestion there is judged with CompilePOSIX
+    nmodel = len(cases)
+    for c in [c for k, c in enumerate(cases[:nmodel]) if k % 7 == 0]:
+        pc = {"id": len(cases), "pat": c["pat"], "alpha": c["alpha"], "ctor": "MustCompilePOSIX"}
+        if c.get("wit"):
+            pc["wit"] = c["wit"]
+        cases.append(pc)
     inp, outp = ctx.path("c11_cases.json"), ctx.path("c11_out.json")
     json.dump(cases, open(inp, "w"))
     work = os.path.dirname(ctx.path("c11_work", "x"))
@@ -110,6 +119,11 @@ def run(ctx):
         ctx.fail("ConcurrentRun error", "regexpSimplify failed when several instances ran at once: %s" % e[:300], {"error": e})
     invalid = drift = validated = 0
     kinds = collections.Counter()
+    posix_sites = len(cases) - nmodel
+    for c, r in zip(cases[nmodel:], res[nmodel:]):
+        if r.get("verdict") and r["valid"]:
+            ctx.fail("posix %s" % r["verdict"].split(" ")[0], "regexpSimplify rewrites the argument of regexp.MustCompilePOSIX `%s` as `%s`: %s"
+                     % (c["pat"], r.get("sugg"), explain(r)), {"pattern": c["pat"], "suggestion": r.get("sugg"), "verdict": r["verdict"], "witness": r.get("witness")})
     for s, c, r in zip(states, cases, res):
         if not r["valid"]:
             invalid += 1
@@ -150,15 +164,15 @@ def run(ctx):
             raise vlib.Infra("Regex.tla refutes the rewrite `%s` => `%s` but Go's regexp finds no difference" % (c["pat"], real))
     if validated == 0:
         raise vlib.Infra("no Find results were validated against regexp")
-    rewritten = sum(1 for r in res if r.get("sugg"))
-    if rewritten < len(res) // 10:
+    rewritten = sum(1 for r in res[:nmodel] if r.get("sugg"))
+    if rewritten < nmodel // 10:
         raise vlib.Infra("the real checker rewrote only %d of %d patterns" % (rewritten, len(res)))
     st, tr = vlib.tlc_states_total(ctx)
     cov = {
-        "states": st, "transitions": tr, "traces_validated_against_impl": len(res) - invalid,
-        "patterns": len(res), "patterns_rejected_by_regexp": invalid, "rewritten_by_real_checker": rewritten,
+        "states": st, "transitions": tr, "traces_validated_against_impl": nmodel - invalid + posix_sites,
+        "patterns": nmodel, "patterns_rejected_by_regexp": invalid, "rewritten_by_real_checker": rewritten,
         "model_output_differs_from_real": drift, "matcher_results_validated": validated, "wrong_rewrites_by_kind": dict(kinds),
-        "concurrent_repetitions": out.get("conc_runs"), "generated_files": out.get("files"), "design": design, "exhaustive": True,
+        "posix_call_sites": posix_sites, "concurrent_repetitions": out.get("conc_runs"), "generated_files": out.get("files"), "design": design, "exhaustive": True,
         "samples": [{"pattern": c["pat"], "suggestion": r.get("sugg")} for c, r in list(zip(cases, res))[:3]],
     }
     return ctx.finish("model_checking", cov, ["bounded ASTs (two operator levels plus contexts) over a 17-symbol alphabet; subjects up to length 4",
